@@ -29,10 +29,10 @@ D == INSTANCE PegDen WITH Nodes <- Nodes, W <- cs.w
 DenFuel == 160
 
 NoCase == [id |-> 0, g |-> 0, w |-> <<>>, A |-> 1, M |-> 1, af |-> 0, cf |-> 1, trk |-> 0, eol |-> 3,
-           ib |-> 0, il |-> 1, ic |-> 1, cls |-> 0, xt |-> 0]
+           ib |-> 0, il |-> 1, ic |-> 1, cls |-> 0, xt |-> 0, bmax |-> 0, bchunk |-> 0, sched |-> 0]
 NoLast == [r |-> 0, v |-> -1, o |-> 0, mx |-> 0, lvl |-> 0, x |-> 0, eo |-> 0, tr |-> <<>>, endv |-> -1, endx |-> 0]
 Cnt0   == [ev |-> 0, cases |-> 0, den |-> 0, opq |-> 0, req |-> 0, look |-> 0, pos |-> 0, hook |-> 0, act |-> 0,
-           xcs |-> 0, ends |-> 0, raise |-> 0, fuel |-> 0, state |-> 0, sw |-> 0, tree |-> 0]
+           xcs |-> 0, ends |-> 0, raise |-> 0, fuel |-> 0, state |-> 0, sw |-> 0, tree |-> 0, rd |-> 0, cls2 |-> 0]
 
 CInit == /\ stk = <<>>
          /\ cs = NoCase
@@ -53,7 +53,8 @@ FullVis(cf)   == cf \in {3, 4}
 HasUnwind(cf) == cf \in {2, 4}
 
 \* context of an invocation, as far as the denotation depends on it (DESIGN.md 2.4)
-CtxOf(f) == [A |-> f.A, lim |-> f.e, fam |-> f.af, vis |-> IF FullVis(f.cf) THEN 1 ELSE 0,
+\* (incremental inputs have no fixed end pointer: e = -1, the logical end is the end of the stream)
+CtxOf(f) == [A |-> f.A, lim |-> IF f.e < 0 THEN Len(cs.w) ELSE f.e, fam |-> f.af, vis |-> IF FullVis(f.cf) THEN 1 ELSE 0,
              eol |-> cs.eol, ib |-> cs.ib, il |-> cs.il, ic |-> cs.ic, dep |-> IF f.d >= 0 THEN f.d ELSE 0]
 PosCtx == [eol |-> cs.eol, ib |-> cs.ib, il |-> cs.il, ic |-> cs.ic]
 
@@ -126,7 +127,7 @@ OnCase(ev, idx) ==
    /\ cs' = ev
    /\ lastx' = NoLast
    /\ verd' = VCap(verd \o If(stk # <<>>, V("C08", idx, 0, "run ended with open invocations", Len(stk), 0)))
-   /\ cnt' = Bump(Bump(cnt, "cases"), "ev")
+   /\ cnt' = [cnt EXCEPT !.cases = @ + 1, !.ev = @ + 1, !.cls2 = @ + (IF ev.cls >= 2 THEN 1 ELSE 0)]
 
 (* en: a rule is asked to match *)
 OnEnter(ev, idx) ==
@@ -274,17 +275,23 @@ OnState(ev, idx) ==
 
 -----------------------------------------------------------------------------
 (* comparison of an observed outcome with the denotation (C01, C09, C05, ...) *)
+\* C07: with a buffer too small for the look-ahead the grammar performs, std::overflow_error (exception class 5) is
+\* the one permitted deviation; "too small" = less than the whole input plus the largest amount a corpus rule requests
+Incremental == cs.cls \in {2, 7, 8}
+OverflowTolerated == cs.cls = 2 /\ cs.bmax < Len(cs.w) + 8
 XClassOf(who) == IF who > 0 \/ who \in ({D!XActParseError} \cup D!XLimits) THEN 1 ELSE IF who = D!XActForeign THEN 3 ELSE 0
 
 DenV(f, idx, v, o, x) ==   \* v: 1 success, 0 failure, 2 exception of class x
    IF ~Known(f.r) THEN <<>> ELSE
    LET d == D!Den(f.r, f.o, CtxOf(f), DenFuel) IN
-   IF d.k \in {"L", "O"} \/ x = 4 THEN <<>>
+   IF d.k \in {"L", "O"} \/ x = 4 \/ (x = 5 /\ OverflowTolerated) THEN <<>>
    ELSE LET agree == CASE d.k = "T" -> v = 1 /\ o = d.e
                        [] d.k = "F" -> v = 0
                        [] d.k = "X" -> v = 2 /\ x = XClassOf(d.who)
             \* a disagreement at an invocation guarded by a limit, or about a limit's exception, is a limit matter
-            prop == IF FrameLim(f) # 0 \/ (d.k = "X" /\ d.who \in D!XLimits) THEN "C18" ELSE PropOfRule(f.r)
+            prop == IF FrameLim(f) # 0 \/ (d.k = "X" /\ d.who \in D!XLimits) THEN "C18"
+                    ELSE IF cs.cls >= 2 THEN "C07"       \* the same case through a memory input is validated separately
+                    ELSE PropOfRule(f.r)
         IN If(~agree, V(prop, idx, f.r, "outcome differs from the denotation", <<v, o, x>>, d))
 
 (* ex: the invocation returns *)
@@ -391,7 +398,7 @@ TopCtx == [A |-> cs.A, lim |-> Len(cs.w), fam |-> cs.af, vis |-> IF FullVis(cs.c
 OnEnd(ev, idx) ==
    LET d == IF Known(cs.g) THEN D!Den(cs.g, 0, TopCtx, DenFuel) ELSE D!RO
        fuel == ev.x = 4
-       skip == d.k \in {"L", "O"} \/ fuel
+       skip == d.k \in {"L", "O"} \/ fuel \/ (ev.x = 5 /\ OverflowTolerated)
        agree == CASE d.k = "T" -> ev.v = 1 /\ ev.o = d.e
                   [] d.k = "F" -> ev.v = 0
                   [] d.k = "X" -> ev.v = 2 /\ ev.x = XClassOf(d.who)
@@ -399,7 +406,7 @@ OnEnd(ev, idx) ==
        perr == ev.v = 2 /\ ev.x = 1
    IN /\ verd' = VCap(verd
            \o If(stk # <<>>, V("C08", idx, 0, "run ended with open invocations", Len(stk), 0))
-           \o If(~skip /\ ~agree, V(IF d.k = "X" /\ d.who \in D!XLimits THEN "C18" ELSE PropOfRule(cs.g), idx, cs.g, "result of the run differs from the denotation", <<ev.v, ev.o, ev.x>>, d))
+           \o If(~skip /\ ~agree, V(IF d.k = "X" /\ d.who \in D!XLimits THEN "C18" ELSE IF cs.cls >= 2 THEN "C07" ELSE PropOfRule(cs.g), idx, cs.g, "result of the run differs from the denotation", <<ev.v, ev.o, ev.x>>, d))
            \o If(~skip /\ agree /\ perr /\ d.k = "X" /\ ev.msg # MsgOf(d.who, d.m),
                  V("C05", idx, d.who, "parse_error does not name the first failing must/raise rule", ev.msg, MsgOf(d.who, d.m)))
            \o If(~skip /\ agree /\ perr /\ d.k = "X" /\ ev.nested # d.n,
@@ -436,7 +443,7 @@ OnTree(ev, idx) ==
 
 OnOther(ev, idx) ==
    /\ verd' = VCap(IF ev.k = "crash" THEN Append(verd, V("C03", idx, 0, "harness process crashed (signal or terminate)", ev.why, 0)) ELSE verd)
-   /\ cnt' = Bump(cnt, "ev")
+   /\ cnt' = IF ev.k = "rd" THEN Bump(Bump(cnt, "rd"), "ev") ELSE Bump(cnt, "ev")
    /\ UNCHANGED <<stk, cs, lastx>>
 
 Step(ev, idx) ==
